@@ -100,9 +100,10 @@ LAYOUTS = [
     ('hvec', dict(lay='hvec:1:3')),
     ('rsz', dict(lay='rsz:1:2')),
     ('cont1', dict(lay='cont1')),
+    ('cont2', dict(lay='cont2')),
     ('dtnull', dict(lay='dtnull')),
 ]
-LAYOUTS_QUICK = ['typed', 'typed-conv', 'flex-contig', 'vec2', 'idx', 'rsz', 'dtnull']
+LAYOUTS_QUICK = ['typed', 'typed-conv', 'flex-contig', 'vec2', 'idx', 'rsz', 'cont2', 'dtnull']
 
 
 def forms_for(L, st, ct, sd):
@@ -152,12 +153,12 @@ def call(s, isput, ranks, v, fname, fkw, lkw, coll, tag):
     return s.get(ranks, v, form=form, coll=coll, **kw)
 
 
-def gen_T2(fmt, shapes, layouts, xtype=D.NC_INT):
+def gen_T2(fmt, shapes, layouts, xtype=D.NC_INT, hints=None):
     cases = []
     for si, sh in enumerate(shapes):
         L = lens(sh)
         for coll in (1, 0):
-            s = Script('T2-f%d-s%d-c%d' % (fmt, si, coll), 1, fmt, DIMS, [('v', xtype, list(sh)), ('w', xtype, [0, 1]), ('z', D.NC_SHORT, [2])])
+            s = Script('T2-f%d-s%d-c%d%s' % (fmt, si, coll, '-' + hints.replace('=', '_') if hints else ''), 1, fmt, DIMS, [('v', xtype, list(sh)), ('w', xtype, [0, 1]), ('z', D.NC_SHORT, [2])], hints=hints)
             background(s)
             if not coll: s.op('*', 'begin_indep')
             tag = 1
@@ -279,6 +280,10 @@ def main(tier=None):
             out += gen_T5(fmt, SHAPES)
         out += gen_T2(5, SHAPES[1:4], LAYOUTS_QUICK, xtype=D.NC_DOUBLE)
         out += gen_T2(1, SHAPES[1:4], LAYOUTS_QUICK, xtype=D.NC_SHORT)
+        # the same product with in-place byte swapping forced on (otherwise only requests above 4 KiB take that path) and off
+        out += gen_T2(2, SHAPES[1:6], [l[0] for l in LAYOUTS], hints='nc_in_place_swap=enable')
+        out += gen_T2(5, SHAPES[1:4], LAYOUTS_QUICK, xtype=D.NC_DOUBLE, hints='nc_in_place_swap=enable')
+        out += gen_T2(1, SHAPES[1:4], LAYOUTS_QUICK, hints='nc_in_place_swap=disable')
         for np in (2, 3): out += gen_T3(1, SHAPES, np)
         out += gen_T3(5, SHAPES, 2)
         out += gen_T4((1, 2, 5))
